@@ -733,7 +733,8 @@ def r6_r7_tables(ctx, hugr, file, only=None) -> None:
         ctx.check(ok, "C04.R7", f"Hugr.{name}", file, m.lineno,
                   f"Hugr.{name} must enumerate ports 0..n-1 of {direction}, each with all the ports linked to it in {table}" + (f" [{why}]" if why else ""), m)
     lp = hugr.methods.get("_linked_ports")
-    pa = [a.arg for a in lp.args.args[1:3]]
+    is_static = any(u(d) == "staticmethod" for d in lp.decorator_list)       # (a helper that reads nothing of the HUGR may be static)
+    pa = [a.arg for a in (lp.args.args[0:2] if is_static else lp.args.args[1:3])]
     w = _prefix_walk(ctx, f"{HQ}._linked_ports")
     ok = False
     if w is not None and len(pa) == 2:
